@@ -476,6 +476,7 @@ type symEnv struct {
 	// inline stack (helpers of the same object see the same fields).
 	inlinable   func(call *ast.CallExpr) *ast.FuncDecl
 	recvs       map[types.Object]bool
+	onInlineBind func(caller, callee *symState, param types.Object, arg ast.Expr) // facts about an argument follow it into the helper
 	inlineSkip  map[*types.Func]bool // never interpreted in place (abstracted by a resolve hook instead)
 	inlineStack []*ast.FuncDecl
 	havocN     int
@@ -1060,6 +1061,9 @@ func (e *symEnv) inlineCall(st *symState, call *ast.CallExpr) []*symState {
 		v := e.eval(st, call.Args[i])
 		if o := e.info.Defs[p]; o != nil {
 			st2.vars[objKey(o)] = v
+			if e.onInlineBind != nil {
+				e.onInlineBind(st, st2, o, call.Args[i])
+			}
 		}
 	}
 	if fd.Recv != nil && len(fd.Recv.List) > 0 && len(fd.Recv.List[0].Names) > 0 {
